@@ -280,8 +280,13 @@ def secondOfRet (r : Res) : Except Err Val :=
 
 def sumW (rs : List Res) : Int := (rs.map (·.w)).sum
 
-def bwdIdx (rs : List Res) : CMap :=
-  (rs.zipIdx.map fun (r, k) => CMap.pre [.i k] r.bwd).flatten
+/-- The backward constraints of the elements, each under its index (`Update(bwd_constraints)`
+    with the stacked per-element choice maps). -/
+def bwdFrom (k : Nat) : List Res → CMap
+  | [] => []
+  | r :: rs => CMap.pre [.i k] r.bwd ++ bwdFrom (k + 1) rs
+
+def bwdIdx (rs : List Res) : CMap := bwdFrom 0 rs
 
 def allBwdOk (rs : List Res) : Bool := rs.all (·.bwdOk)
 
